@@ -393,3 +393,46 @@ def run_c02(run, scratch, seed, tier):
 
 
 PROPS["C02"] = {"props_file": "C02.v", "run": run_c02}
+
+
+# ---------------------------------------------------------------- C14 / C15 / C06
+def kernel_suite(run, scratch, seed, tier, label):
+    out = json.loads(common.run_impl(scratch, "impl_kernels.py", json.dumps({"seed": seed, "n": sizes(tier, 40, 600)})))
+    for f in out["failures"][:2]:
+        run.violation({"suite": "kernel_postconditions", "failure": f}, "%s: %s" % (label, f["what"]))
+    run.add_suite("kernel_postconditions", {
+        "evaluations": out["evaluations"], "distinct_nontrivial": out["evaluations"], "oracle_failures": out["n_failures"],
+        "traces_validated_against_impl": 0,
+        "rule": "algos whose numerical kernel lies outside the model (WeighInvVol, WeighERC, WeighMeanVar, WeighRandomly, "
+                "TargetVol on two calls with a changing selection, PTE_Rebalance, SelectRandomly, SelectRegex, LimitWeights) run on "
+                "the real bt over random price panels; documented post-conditions recomputed with numpy over the documented window",
+        "samples": [{"seed": seed}]})
+
+
+def run_c14(run, scratch, seed, tier):
+    bst = backtest_suite(run, scratch, seed, sizes(tier, 300, 5000), oracle_fns=[("C14 selection", oracles.c14_selection)])
+    run.add_suite("backtest_runs", bst)
+    run.cov["rule"] = "per-run trace of temp['selected'] / temp['stat'] compared with the model bit-for-bit; " + bst["rule"]
+    kernel_suite(run, scratch, seed, tier, "C14")
+
+
+def run_c15(run, scratch, seed, tier):
+    bst = backtest_suite(run, scratch, seed, sizes(tier, 300, 5000), oracle_fns=[("C15 weights", oracles.c15_weights)])
+    run.add_suite("backtest_runs", bst)
+    run.cov["rule"] = "per-run trace of temp['weights'] compared with the model bit-for-bit; " + bst["rule"]
+    kernel_suite(run, scratch, seed, tier, "C15")
+
+
+def run_c06(run, scratch, seed, tier):
+    bst = backtest_suite(run, scratch, seed, sizes(tier, 300, 5000), oracle_fns=[("C06 rebalance", oracles.c06_rebalance)])
+    run.add_suite("backtest_runs", bst)
+    run.cov["rule"] = bst["rule"]
+    import gen_engine
+    prof = gen_engine.Profile(p_upd_false=0.4)
+    est = suites.engine_suite(run, scratch, seed, sizes(tier, 200, 4000), profile=prof)
+    run.add_suite("engine_histories", est)
+
+
+PROPS["C14"] = {"props_file": "C14.v", "run": run_c14}
+PROPS["C15"] = {"props_file": "C15.v", "run": run_c15}
+PROPS["C06"] = {"props_file": "C06.v", "run": run_c06}
